@@ -29,6 +29,9 @@ def specStep (acc : Access) (s : FSpec) : FileOp → FSpec × FileOut
     if acc = .wronly then (s, .data none)
     else (⟨s.content, s.pos + (s.content.drop s.pos).length⟩, .data (some (s.content.drop s.pos)))
   | .size => (s, .size (some s.content.length))
+  | .read n =>
+    if acc = .wronly then (s, .data none)
+    else (⟨s.content, s.pos + ((s.content.drop s.pos).take n).length⟩, .data (some ((s.content.drop s.pos).take n)))
 
 def specRun (acc : Access) (s : FSpec) : List FileOp → FSpec × List FileOut
   | [] => (s, [])
